@@ -584,8 +584,11 @@ def run_real(text, with_ack=True):
     """-> dict: verdict | exc, events (model fields), reports [(level, code, value, refdes, k, lost)], snapshot,
     writes, ack_exc, kind"""
     p = pyx()
-    base = p.error_handler.err_handler
-    entry = p.x12n_document.x12n_document
+    try:
+        base = p.error_handler.err_handler
+        entry = p.x12n_document.x12n_document
+    except AttributeError as e:
+        raise common.Infra('pyx12 entry point missing: %r' % (e,))
     fields = []
     reports = []
     rec = {'snapshot': None, 'ack_exc': None, 'errh': None, 'nerr_at_accept': None}
@@ -734,6 +737,11 @@ def real_lines(real):
     return [w[:-1] if w.endswith('\n') else w for w in real['writes']]
 
 
+def mask_ta105(l):
+    f = l.split('*')
+    return '*'.join(f[:5] + ['#~']) if f[0] == 'TA1' and len(f) == 6 and f[4] == 'R' else l
+
+
 def mask_gs08(lines):
     return ['*'.join(l.split('*')[:8] + ['#~']) if l.startswith('GS*') else l for l in lines]
 
@@ -772,6 +780,9 @@ def compare_model(real, mout, mask=True):
         rlines = canon_lines(real_lines(real))
         if mask:
             mlines, rlines = mask_gs08(mlines), mask_gs08(rlines)
+        if real['kind'] == '999':
+            # TA105 of the 999 is `list(set(codes))[0]`: any member, hash-order dependent
+            mlines, rlines = [mask_ta105(l) for l in mlines], [mask_ta105(l) for l in rlines]
         if mlines != rlines:
             k = next((i for i in range(min(len(mlines), len(rlines))) if mlines[i] != rlines[i]), min(len(mlines), len(rlines)))
             bad.append(('Ack.ack%s' % real['kind'], 'line %d: model %r real %r (model %d lines, real %d)' % (
@@ -844,6 +855,11 @@ def refdes_pos(refdes):
     if not m:
         return None
     return (int(m.group(1)), int(m.group(2)) if m.group(2) else None)
+
+
+def seg_level(r):
+    """an element error raised by the segment-level checks (too many elements, syntax notes): refdes without segment id"""
+    return r[0] == 'ele' and (isinstance(r[3], int) or re.fullmatch(r'\d{2}', str(r[3])) is not None)
 
 
 def judge(text, real):
@@ -964,9 +980,12 @@ def judge(text, real):
         acc = code in ('A', 'E')
         if acc and not want_acc:
             set_flagged.add(i)
-            cls = set('env' if (r[0] == 'ele' and r[4] in (a, b)) else ('lost' if r[5] else 'other') for r in ins)
+            cls = set('env' if (r[0] == 'ele' and r[4] in (a, b)) else ('lost' if r[5] else ('stale' if seg_level(r) else 'other')) for r in ins)
             if 'other' in cls:
                 viol.append(('pred:ak5-accepted-with-error-in-set', 'set %d: %s*%s, reported inside: %r' % (i + 1, five, code, ins[:3])))
+            elif 'stale' in cls:
+                viol.append(('pred:ak5-accepted-with-stale-attached-element-error',
+                             'set %d: %s*%s; a segment-level element error was attached to the ST node\'s last element: %r' % (i + 1, five, code, ins[:3])))
             elif 'env' in cls:
                 viol.append(('pred:ak5-accepted-with-envelope-element-error',
                              'set %d: %s*%s although an element error was reported on its ST/SE: %r' % (i + 1, five, code, ins[:2])))
@@ -997,10 +1016,15 @@ def judge(text, real):
                     return 'lost'
                 if r[0] == 'seg' and not any(sa <= r[4] <= sb for sa, sb, _ in sets):
                     return 'outside'
+                if seg_level(r):
+                    return 'stale'
                 return 'other'
             cls = set(cls_of(r) for r in ins)
             if 'other' in cls:
                 viol.append(('pred:ak9-accepted-with-error-in-group', 'group %d: AK9*%s, reported inside: %r' % (gi + 1, el(ak9, 0), ins[:3])))
+            elif 'stale' in cls:
+                viol.append(('pred:ak9-accepted-with-stale-attached-element-error',
+                             'group %d: AK9*%s; a segment-level element error was attached to an envelope node\'s last element: %r' % (gi + 1, el(ak9, 0), ins[:3])))
             elif 'outside' in cls:
                 viol.append(('pred:ak9-accepted-with-segment-error-outside-set',
                              'group %d: AK9*%s although a segment error was reported between its sets: %r' % (gi + 1, el(ak9, 0), ins[:2])))
@@ -1077,6 +1101,9 @@ def judge(text, real):
                     viol.append(('pred:ak4-element-position-differs-from-report',
                                  'set %d %s position %s: element error %s reported for %r is itemised at element %r' % (
                                      i + 1, sid, posn, code, refdes, [el(l[1], 0) for l in under if el(l[1], 2) == code][:3])))
+                elif seg_level(r):
+                    viol.append(('pred:ak4-stale-host', 'set %d: segment-level element error %s (%r, value %r) reported at %s position %s is itemised under '
+                                 'the previously validated segment or (ST node) not at all' % (i + 1, code, refdes, value, sid, posn)))
                 elif any(l[0] == four and el(l[1], 2) == code and val_ok(l) for l in lines):
                     viol.append(('pred:ak4-under-other-segment', 'set %d: element error %s (%r) reported at %s position %s is itemised under another segment' % (i + 1, code, refdes, sid, posn)))
                 elif any(el(l[1], 2) == code for l in under):
@@ -1173,7 +1200,8 @@ def run(tier):
     res.assumptions = ['validation completes (x12n_document returns); runs that raise elsewhere are counted under out_of_scope_crashes (C07)',
                        'error reports are attributed to the source segment being processed when err_handler was called (callback counter)',
                        'int(GE01) is evaluated by Python and passed to the model as number / bad / absent',
-                       'list(set(..)) order of AK3 lines of one segment is compared as a multiset']
+                       'list(set(..)) order of AK3 lines of one segment is compared as a multiset; TA105 of a 999 (list(set(codes))[0]) is masked',
+                       'GS08 of the 997 is compared in C06 only']
     return res.finish(trusted=common.TRUSTED_COMMON + [
         'modelled: err_handler (add_*/…_error/close_*), err_isa/gs/st/seg/ele counts and ack codes, error_997_visitor, '
         'error_999_visitor with the X12Writer it uses, the Segment/Composite operations they call',
